@@ -365,8 +365,8 @@ impl Prop for C03 {
     }
     fn runs(&self, tier: Tier) -> u64 {
         match tier {
-            Tier::Quick => 250_000,
-            Tier::Thorough => 6_000_000,
+            Tier::Quick => 1_500_000,
+            Tier::Thorough => 60_000_000,
         }
     }
     fn gen(&self, seed: u64, _tier: Tier) -> Case {
